@@ -2,6 +2,7 @@ package main
 
 import (
 	"fmt"
+	"go/types"
 
 	"golang.org/x/tools/go/ssa"
 )
@@ -30,6 +31,21 @@ func (g *Gen) ioCopy(st *State, name string, call *ssa.CallCommon, result ssa.Va
 			limCell = src.Elem.Cell
 		}
 	}
+	// the same reader after its cell was promoted to the heap (boxing &io.LimitedReader{...} into an
+	// io.Reader promotes the local, promote.go): R and N live in the per-field heap arrays. Only for an
+	// object allocated in this frame, so nobody else can hold or change it.
+	limRef, limKey := "", ""
+	if limCell == nil && src.Elem != nil && src.Elem.Kind == "opaque" && src.Elem.T != "" && src.Elem.Ty != nil && st.fresh[src.Elem.T] {
+		if pt, ok := src.Elem.Ty.Underlying().(*types.Pointer); ok && pt.Elem().String() == "io.LimitedReader" {
+			rKey, _ := g.heapKey(pt, 0)
+			nKey, _ := g.heapKey(pt, 1)
+			inner := fmt.Sprintf("(%s (select %s %s))", availUF, g.heapGet(st, rKey), src.Elem.T)
+			g.assume(st, fmt.Sprintf("(>= %s 0)", inner))
+			n := fmt.Sprintf("(select %s %s)", g.heapGet(st, nKey), src.Elem.T)
+			eff = g.def("avail", "Int", fmt.Sprintf("(ite (<= %s 0) 0 (ite (<= %s %s) %s %s))", n, inner, n, inner, n))
+			limRef, limKey = src.Elem.T, nKey
+		}
+	}
 	g.assume(st, fmt.Sprintf("(>= %s 0)", eff))
 	n := g.newSym("copied", "Int")
 	errv := g.newSym("copyerr", "Int")
@@ -49,6 +65,10 @@ func (g *Gen) ioCopy(st *State, name string, call *ssa.CallCommon, result ssa.Va
 		nt[1] = Val{T: g.def("lrN", "Int", fmt.Sprintf("(- %s %s)", cv.Tup[1].T, n)), Kind: "int"}
 		cv.Tup = nt
 		st.cells[limCell] = cv
+	}
+	if limRef != "" {
+		cur := g.heapGet(st, limKey)
+		st.heap[limKey] = g.def("H", g.heapSort[limKey], fmt.Sprintf("(store %s %s (- (select %s %s) %s))", cur, limRef, cur, limRef, n))
 	}
 	ev := Val{T: errv, Kind: "err", Ty: callResults(call).At(1).Type()}
 	g.foreignErrs(st, ev)
